@@ -472,6 +472,7 @@ fn fold(rep: &mut Reporter, e: Explored, name: &str) {
 }
 
 pub fn run() {
+    println!();
     let args = Args::from_env();
     if args.prop == "NONE" {
         return;
@@ -490,7 +491,7 @@ pub fn run() {
         return;
     }
     let thorough = args.tier == Tier::Thorough;
-    let budget = args.budget(3000, 60_000, 20);
+    let budget = args.budget(20_000, 400_000, 20);
     let t0 = std::time::Instant::now();
     fold(&mut rep, explore::<Quorum>("C39", TEST, args.seed, thorough, budget), "quorum");
     fold(&mut rep, explore::<Join>("C39", TEST, args.seed, thorough, budget), "join_responses");
